@@ -368,3 +368,39 @@ def check(ctx):
     sub = type(ctx)(ctx.pid, ctx.an, ctx.tier)
     c08.check(sub)
     ctx.obligations.extend(o for o in sub.obligations if o.rule.split(".", 1)[1].split(".")[0] in ("iv", "agree", "xor"))
+
+    # ---------------------------------------------------------------- C03.7 a named key file survives the replacement of its owner
+    # Loading a document builds a *new* sub-configuration for every nested map and stores it over the old one.  If the old one
+    # named its own key file, the secrets below it were written with that key: the new object has to take the key file over
+    # before it decodes them (load_tree decrypts while loading).
+    from .links import creates_config
+    from engine.flow import same_name_value
+    sv = model.method("Config", "_set_value")
+    gsv = an.cfg(sv)
+    created = []
+    for n in gsv.nodes:
+        if n.kind == "call" and creates_config(an, sv, n):
+            par = getattr(n.ast, "_parent", None)
+            if isinstance(par, ast.Assign) and len(par.targets) == 1 and isinstance(par.targets[0], ast.Name):
+                created.append((n, par.targets[0]))
+    ctx.need(bool(created), "Config._set_value no longer builds a sub-configuration for a nested map: vanished anchor")
+    for n, var in created:
+        loads_ = [m for m in gsv.nodes if m.kind == "call" and isinstance(m.ast.func, ast.Attribute) and m.ast.func.attr == "load_tree"
+                  and isinstance(m.ast.func.value, ast.Name) and m.ast.func.value.id == var.id]
+        takes = []
+        for m in gsv.nodes:
+            if m.kind == "assign" and isinstance(m.ast, ast.Assign) and any(
+                    isinstance(t, ast.Attribute) and t.attr.endswith("__keyfile") and isinstance(t.value, ast.Name) and t.value.id == var.id for t in m.ast.targets):
+                v = m.ast.value
+                prev_ok = False
+                if isinstance(v, ast.Attribute) and v.attr.endswith("__keyfile"):
+                    for k, pl in value_sources(sv, v.value, m) if isinstance(v.value, ast.Name) else [("expr", v.value)]:
+                        if k == "expr" and isinstance(pl, ast.AST) and any(isinstance(y, ast.Attribute) and y.attr == "_data" for y in ast.walk(pl)):
+                            prev_ok = True
+                if prev_ok:
+                    takes.append(m)
+        before = bool(takes) and all(any(gsv.path(t, lambda x, l=l: x is l, may_raise=lambda x: False, from_successors=True) for t in takes) for l in loads_)
+        ctx.ob("keyfile.survives-replacement", sv, n.ast, before and bool(loads_),
+               "the new sub-configuration takes over the key file named by the one it replaces before it loads (and decrypts) the nested map" if before and loads_ else
+               "a nested map is loaded into a brand-new sub-configuration that forgets the key file its predecessor named: secrets written "
+               "with the sub-configuration's own key file are decrypted with an ancestor's key (load fails or yields garbage)", node=n)
